@@ -45,7 +45,7 @@ ASSUMPTIONS = [
 ]
 BOUNDS = {
     "quick": {"cases": 9600, "max_files": 16, "shards": 32},
-    "thorough": {"cases": 48000, "max_files": 24, "shards": 48},
+    "thorough": {"cases": 200000, "max_files": 24, "shards": 96},
 }
 
 # Documented defaults (docs/reference/settings.md, `static_files_allowed` / `static_files_forbidden`) — copied here on
